@@ -266,7 +266,7 @@ PROPS["C13"] = dict(
                "exploration on every board of the chess game fuel 64 always suffices (each capture removes a man). EvalOk is proved for the chess game (chess_evalOk) and every theorem is instantiated on it.",
     technique="Lean 4 proof: loop invariant of the fail-hard move loop in rank space, graded validity of mate distances, permutation invariance of the reference maximum; differential windows",
     rule="positions with histories (corpus, mate endgames, synthetic) x depth 0-4 x 4 configurations x 5 windows (bounds -inf, M+-k, heuristic, +inf); non-trivial = distinct script",
-    partial=["fuel sufficiency for TUROCHAMP's quiescence is not proved (EvalOk of the engines' own float evaluations is: C13Engines.*_engine_*)"],
+    partial=[],
     modelled=SEARCH_MODELLED,
 )
 
@@ -294,8 +294,8 @@ PROPS["C03"] = dict(
          "deep oracle d=4-6; non-trivial = distinct script; mate scores counted",
     partial=["exhaustive reference quiescence only affordable with <= 12 men (busy positions: impl vs model only)",
              "board hand-back decided by the stream (getter comparison; at a root without legal moves the search adjudicates mate/stalemate on the caller's board: accepted, documented in DESIGN 7), not by a theorem",
-             "no fuel-sufficiency result for TUROCHAMP's quiescence (EvalOk of the engines' float evaluations is proved: C13Engines.*_engine_* hold for bernsteinGame / turochampGame with no evaluation hypothesis); "
-             "the searches BERNSTEIN and TUROCHAMP run are compared with the model exactly (cfgs bern-static / turo-quiet in the c03 stream: nodes, score, PV): plausible table at every node + float evaluation; "
+             "the engines' own searches: EvalOk of their float evaluations and fuel sufficiency of TUROCHAMP's quiescence (a picked move is a capture or a quiet mating move: 65 plies always, 33 with <= 32 men) are proved "
+             "(C13Engines.*_engine_*, turochamp_engine_enough_fuel*); the searches BERNSTEIN and TUROCHAMP run are compared with the model exactly (cfgs bern-static / turo-quiet in the c03 stream: nodes, score, PV): plausible table at every node + float evaluation; "
              "considerable-moves quiescence whose predicate sees the board after the move + an evaluation that reads the castled flags (boardGameW)"],
     modelled=SEARCH_MODELLED,
 )
